@@ -281,13 +281,9 @@ def mxPref (recs : Bytes) (type dataSize0 : Nat) (s : Stream) : Out (Nat × Nat 
     ok (p, (dataSize0 + 65536 - 2) % 65536, s')
   else ok (0, dataSize0, s)
 
-/-- one iteration of the loop of `DNS::convert_records` -/
-def convertOne (recs : Bytes) (s : Stream) : Out (Resource × Stream) := do
-  let (dname, s) ← composeSkip recs s
-  let (type, s) ← readBE16 recs s
-  let (qclass, s) ← readBE16 recs s
-  let (ttl, s) ← readBE32 recs s
-  let (dataSize0, s) ← readBE16 recs s
+/-- one iteration of the loop of `DNS::convert_records`, after the fixed fields have been read -/
+def convertData (recs : Bytes) (dname : Bytes) (type qclass ttl dataSize0 : Nat) (s : Stream) :
+    Out (Resource × Stream) := do
   let (pref, dataSize, s) ← mxPref recs type dataSize0 s
   if s.rem < dataSize then throw .malformedPacket else
   if type = tAAAA then do
@@ -309,6 +305,15 @@ def convertOne (recs : Bytes) (s : Stream) : Out (Resource × Stream) := do
   else do
     let (d, s) ← readBytes recs s dataSize
     ok (⟨cstr dname, type, qclass, ttl, pref, .str d⟩, s)
+
+/-- one iteration of the loop of `DNS::convert_records` -/
+def convertOne (recs : Bytes) (s : Stream) : Out (Resource × Stream) := do
+  let (dname, s) ← composeSkip recs s
+  let (type, s) ← readBE16 recs s
+  let (qclass, s) ← readBE16 recs s
+  let (ttl, s) ← readBE32 recs s
+  let (dataSize0, s) ← readBE16 recs s
+  convertData recs dname type qclass ttl dataSize0 s
 
 /-- the loop of `convert_records`: `while (stream && res.size() < rr_count)` -/
 def convertLoop (recs : Bytes) : Nat → Stream → Out (List Resource)
